@@ -19,7 +19,7 @@ pub fn prot_palette() -> Vec<RProtected> {
     let two = RHeader { alg: Some(l_int(-7)), key_id: b"11".to_vec(), ..Default::default() };
     let extras = RHeader { rest: vec![(l_text("z"), gen::u(1)), (l_int(-1), gen::b(b"x"))], ..Default::default() };
     let cs = RHeader { counter_signatures: vec![sig_reps()[1].clone()], ..Default::default() };
-    vec![
+    let mut v = vec![
         RProtected { original: Some(vec![]), header: RHeader::default() },
         RProtected { original: Some(vec![0xa0]), header: RHeader::default() },
         // non-canonical: key order swapped, non-minimal integer, indefinite map
@@ -29,7 +29,12 @@ pub fn prot_palette() -> Vec<RProtected> {
         RProtected { original: None, header: alg.clone() },
         RProtected { original: None, header: extras.clone() },
         RProtected { original: None, header: cs.clone() },
-    ]
+    ];
+    // every typed field alone (an emptiness test that forgets a field turns it into h'')
+    for h in crate::spaces::c11::single_field_headers().into_iter().skip(1).take(5) {
+        v.push(RProtected { original: None, header: h });
+    }
+    v
 }
 
 pub fn bstr_classes(ex: &Ex) -> Vec<Vec<u8>> {
